@@ -186,3 +186,95 @@ Proof.
   intros (_ & Hm & _ & _ & _ & G & O). unfold slot_of. rewrite Hm.
   destruct (N.eqb_spec (fid mod max_frag_id m) i) as [->|Hn]; [now rewrite G|now rewrite O].
 Qed.
+
+(* ---------- panic-free functional forms (used by the closed form of decap) ---------- *)
+Fixpoint upd_nth {A} (l : list A) (i : N) (v : A) : list A :=
+  match l with [] => [] | x :: t => if i =? 0 then v :: t else x :: upd_nth t (N.pred i) v end.
+Lemma set_nth_upd {A} (l : list A) : forall i v, i < lenN l -> set_nth l i v = Ret (upd_nth l i v).
+Proof.
+  induction l as [|x t IH]; intros i v H; [rewrite lenN_nil in H; lia|]. cbn [set_nth upd_nth].
+  destruct (N.eqb_spec i 0); [reflexivity|]. rewrite lenN_cons in H. rewrite IH by lia. reflexivity.
+Qed.
+Lemma upd_nth_len {A} (l : list A) i v : lenN (upd_nth l i v) = lenN l.
+Proof. revert i; induction l as [|x t IH]; intro i; cbn [upd_nth]; [reflexivity|].
+  destruct (i =? 0); rewrite !lenN_cons; [reflexivity|now rewrite IH]. Qed.
+Lemma nthN_upd_same {A} (l : list A) i v : i < lenN l -> nthN i (upd_nth l i v) = Some v.
+Proof. revert i; induction l as [|x t IH]; intros i H; [rewrite lenN_nil in H; lia|]. cbn [upd_nth].
+  destruct (N.eqb_spec i 0) as [->|Hi]; [reflexivity|]. cbn [nthN]. destruct (N.eqb_spec i 0); [lia|].
+  rewrite lenN_cons in H. apply IH. lia. Qed.
+Lemma nthN_upd_other {A} (l : list A) i j v : j <> i -> nthN j (upd_nth l i v) = nthN j l.
+Proof. revert i j; induction l as [|x t IH]; intros i j H; [reflexivity|]. cbn [upd_nth].
+  destruct (N.eqb_spec i 0) as [->|Hi]; cbn [nthN]; destruct (N.eqb_spec j 0); try reflexivity; try lia.
+  apply IH. lia. Qed.
+Lemma upd_nth_same {A} (l : list A) i v : nthN i l = Some v -> upd_nth l i v = l.
+Proof. revert i; induction l as [|x t IH]; intros i H; [reflexivity|]. cbn [upd_nth nthN] in *.
+  destruct (N.eqb_spec i 0); [now injection H as ->|]. now rewrite IH. Qed.
+
+Definition set_slot (m : mem) (i : N) (v : option mctx) : mem := set_frags m (upd_nth (frags m) i v).
+
+Definition new_frag_fn (m : mem) (c : dctx) : mem * (mctx + mem_error) :=
+  if max_frag_id m =? 0 then (m, inr MUnderflow) else
+  match slot_of m (c_fid c) with
+  | Some (_, b) => (set_slot m (c_fid c mod max_frag_id m) None, inl (c, b))
+  | None => match storages m with
+            | [] => (m, inr MUnderflow)
+            | b :: t => (set_storages m t, inl (c, b))
+            end
+  end.
+Definition take_frag_fn (m : mem) (fid : N) : mem * (mctx + mem_error) :=
+  if max_frag_id m =? 0 then (m, inr MUndefinedId) else
+  match slot_of m fid with
+  | Some (c, b) => if c_fid c =? fid then (set_slot m (fid mod max_frag_id m) None, inl (c, b))
+                   else (m, inr MUndefinedId)
+  | None => (m, inr MUndefinedId)
+  end.
+Definition save_frag_fn (m : mem) (cb : mctx) : mem * option mem_error :=
+  if max_frag_id m =? 0 then (m, Some MCorrupted) else
+  match slot_of m (c_fid (fst cb)) with
+  | None => (set_slot m (c_fid (fst cb) mod max_frag_id m) (Some cb), None)
+  | Some _ => (m, Some MCorrupted)
+  end.
+
+Lemma set_frags_id m : set_frags m (frags m) = m. Proof. destruct m; reflexivity. Qed.
+
+Lemma new_frag_fn_ok m c : mem_wf m -> new_frag m c = Ret (new_frag_fn m c).
+Proof.
+  intros Hwf. unfold new_frag, new_frag_fn. destruct (N.eqb_spec (max_frag_id m) 0) as [Hz|Hz]; [reflexivity|].
+  rewrite slot_idx_ok by assumption. cbn [bind].
+  assert (Hi : c_fid c mod max_frag_id m < max_frag_id m) by (apply N.mod_lt; assumption).
+  destruct (get_slot_ok m _ Hwf Hi) as (old & -> & Hn). cbn [bind].
+  rewrite set_nth_upd by (destruct Hwf; lia). cbn [bind].
+  unfold slot_of. rewrite Hn. destruct old as [[c0 b0]|]; [reflexivity|].
+  rewrite (upd_nth_same _ _ _ Hn), set_frags_id. unfold new_pdu. destruct (storages m); reflexivity.
+Qed.
+Lemma take_frag_fn_ok m fid : mem_wf m -> take_frag m fid = Ret (take_frag_fn m fid).
+Proof.
+  intros Hwf. unfold take_frag, take_frag_fn. destruct (N.eqb_spec (max_frag_id m) 0) as [Hz|Hz]; [reflexivity|].
+  rewrite slot_idx_ok by assumption. cbn [bind].
+  assert (Hi : fid mod max_frag_id m < max_frag_id m) by (apply N.mod_lt; assumption).
+  destruct (get_slot_ok m _ Hwf Hi) as (cur & -> & Hn). cbn [bind].
+  unfold slot_of. rewrite Hn. destruct cur as [[c b]|]; [|reflexivity].
+  destruct (c_fid c =? fid); [|reflexivity]. rewrite set_nth_upd by (destruct Hwf; lia). reflexivity.
+Qed.
+Lemma save_frag_fn_ok m cb : mem_wf m -> save_frag m cb = Ret (save_frag_fn m cb).
+Proof.
+  intros Hwf. unfold save_frag, save_frag_fn. destruct (N.eqb_spec (max_frag_id m) 0) as [Hz|Hz]; [reflexivity|].
+  rewrite slot_idx_ok by assumption. cbn [bind].
+  assert (Hi : c_fid (fst cb) mod max_frag_id m < max_frag_id m) by (apply N.mod_lt; assumption).
+  destruct (get_slot_ok m _ Hwf Hi) as (cur & -> & Hn). cbn [bind].
+  unfold slot_of. rewrite Hn. destruct cur; [reflexivity|].
+  rewrite set_nth_upd by (destruct Hwf; lia). reflexivity.
+Qed.
+
+Lemma set_slot_wf m i v : mem_wf m -> mem_wf (set_slot m i v).
+Proof. intros [Hf Hc]. unfold mem_wf, set_slot; cbn [frags storages max_frag_id cap set_frags]. now rewrite upd_nth_len. Qed.
+Lemma slot_of_set_slot m i v fid : mem_wf m -> i < max_frag_id m ->
+  slot_of (set_slot m i v) fid = if fid mod max_frag_id m =? i then v else slot_of m fid.
+Proof.
+  intros [Hf _] Hi. unfold slot_of, set_slot; cbn [frags max_frag_id set_frags].
+  destruct (N.eqb_spec (fid mod max_frag_id m) i) as [->|Hn].
+  - now rewrite nthN_upd_same by lia.
+  - now rewrite nthN_upd_other.
+Qed.
+Lemma slot_of_set_storages m st fid : slot_of (set_storages m st) fid = slot_of m fid.
+Proof. reflexivity. Qed.
